@@ -391,6 +391,17 @@ class Variants(productmd.composeinfo.VariantBase):
     def __len__(self):
         return len(self.variants)
 
+    def _validate_variants(self):
+        # each variant is written to a section named after its UID
+        uids = set()
+        todo = list(self.variants.values())
+        while todo:
+            variant = todo.pop()
+            if variant.uid in uids:
+                raise ValueError("Variant UID already exists: %s" % variant.uid)
+            uids.add(variant.uid)
+            todo.extend(variant.variants.values())
+
     def serialize(self, parser):
         self.validate()
 
